@@ -30,6 +30,22 @@ CHECKS = {
             "invariant check at quiescent points: verif_dump (index + per-file counters) vs independent scan of the data files",
             "After every few operations, every merge and every reopen the dumped index and per-file live/dead/dead-bytes counters are compared with counts derived from an independent scan of the files and with the map model. Held on the snapshots taken.",
             "verif_dump is a read-only copy taken under the writer lock. Crash-free histories only, as the property states."),
+    "C03": ("fault_enumeration", "DESIGN.md 5/C03",
+            "crash-point enumeration: every prefix of the recorded file-system calls is rebuilt and reopened by the real code, checked against the model of acknowledged operations",
+            "Single-threaded episodes (set/del/get, entries above and below the write buffer, merges, reopen cycles) are recorded through the I/O shim; for every prefix of the directory-changing calls the directory is rebuilt, opened with the real code, every key compared with the map model of the operations acknowledged by then (in-flight op either way), and a continuation run. Exhaustive over kill points per recorded episode; episodes sampled.",
+            "Kill modelled at call boundaries (a single write is atomic). Shim completeness is self-checked per episode (log replay must reproduce the directory byte for byte)."),
+    "C09": ("fault_enumeration", "DESIGN.md 5/C09",
+            "power-loss state enumeration from the recorded call log: per file cut back to its last fsync, reopened by the real code, checked against the model",
+            "As C03 under sync=always with fsync calls as extra cut points: at every call boundary files are cut back to (or towards) their length at the last completed fsync in several variants, the directory is opened with the real code and every acknowledged operation must read as the model says.",
+            "Failure model as stated in the property (per-file loss of any unsynced suffix, durable directory entries)."),
+    "C14": ("exploration", "DESIGN.md 5/C14",
+            "rule monitor over the recorded call log (open flags, write offsets, truncate/rename/link, id monotonicity) across kill/restart chains",
+            "Every call on the store directory, over chains of recorded episodes separated by kills at random call boundaries, is checked against rules R1-R6 (exclusive create, append-only, no truncate/rename/link, writes only via the creating descriptor, ids above everything the directory ever held, at most one entry beyond max_file_size).",
+            "The shim sees all directory-changing calls (self-checked). Crash points for the chains are sampled, not enumerated."),
+    "C20": ("fault_enumeration", "DESIGN.md 5/C20",
+            "fault injection at every write/create/fsync/unlink position of a plan (one rerun per position), model-based oracle with the faulted key ambiguous",
+            "Each plan is rerun once per fallible call position with that call failing (ENOSPC/EIO, transient). The faulted operation must report an error, every other operation must succeed and match the model in the running process and after restart, the directory must reopen and accept further work. Exhaustive over positions per plan; plans sampled.",
+            "Faults are whole-call failures at the libc boundary (no short writes)."),
 }
 
 NOT_YET = {
